@@ -3,7 +3,10 @@ OPT = ['--ptrdiff', '--flat-unions']
 # P: fast encoding (see props/C08/spec.py): -fno-inline + std::string::_M_create cut to a reported bound failure (all strings <= 15
 # bytes) + deterministic pool allocator. X: exact encoding (CBMC malloc, inlined libstdc++), strings up to 63 bytes.
 SSO = dict(wrap='wrap.cc', cxxflags=['-fno-inline'], cuts=['basic_stringIcSt11char_traitsIcESaIcEE9_M_createERmm$'], extra_c=['sso_bound.c'], ir2c_flags=OPT)
-UNITS = {'P': dict(SSO, new_block=64, gen_defs=['VERIF_NEW_POOL=8']), 'X': dict(wrap='wrap.cc', new_block=64, ir2c_flags=OPT)}
+UNITS = {'P': dict(SSO, new_block=64, gen_defs=['VERIF_NEW_POOL=8']), 'X': dict(wrap='wrap.cc', new_block=64, ir2c_flags=OPT),
+         # XP: exact libstdc++ strings (heap storage allowed, blocks of 64 bytes) + deterministic pool allocator; NP: the same without inlining
+         'XP': dict(wrap='wrap.cc', new_block=64, ir2c_flags=OPT, gen_defs=['VERIF_NEW_POOL=16']),
+         'NP': dict(wrap='wrap.cc', new_block=64, ir2c_flags=OPT, gen_defs=['VERIF_NEW_POOL=16'], cxxflags=['-fno-inline'], extra_c=['alloc_noop.c'])}
 BOUNDS = ''
 STUBS = []
 OUTSIDE = []
@@ -38,18 +41,26 @@ def queries(tier):
     for L in ([0] if quick else [0, 1]):
         qs.append(Q('dsround_len%d' % L, 'P', 'h_dsround.c', {'LEN': L}, 5 * L + 8, 'parse_data_string(format_data_string(d, mask, flags)) == (d, mask classes) for %d symbolic bytes' % L,
                     'len(data) == %d, all byte values, all masks, with/without mask, both flag values' % L))
-    # hex dump: (name, SIZE, ALIGN, FLAGS, ADDR, START, WIDTH)
-    hd = [('a64_s1_al0_ascii', 1, 0, 0x802, 0, 0, 16), ('a64_s3_al14_ascii', 3, 14, 0x802, 0, 0, 16), ('auto_s2_al0', 2, 0, 0x0, 1, 0, 2), ('auto_s0', 0, 0, 0x2, 1, 0, 2)]
+    # hex dump cells: (name, SIZE, START, FLAGS, WIDTH, [(C1, C2) ...])
+    ALLCUTS3 = [(a, b) for a in range(0, 4) for b in range(a, 4)]
+    hd = [('s0', 0, 0x0, 0x2, 2, [(0, 0)]), ('s1_ascii', 1, 0x0, 0x2, 2, [(0, 0), (0, 1), (1, 1)]), ('s3_al14_ascii', 3, 0x1E, 0x2, 2, ALLCUTS3 if not quick else [(0, 3), (1, 2), (2, 2)])]
     if not quick:
-        hd += [('a64_s5_al13_skipsep', 5, 13, 0x842, 0, 0, 16), ('a64_s16_al0', 16, 0, 0x800, 0, 0, 16), ('a64_s17_al15_ascii', 17, 15, 0x802, 0, 0, 16),
-               ('auto_s4_al14_w4', 4, 14, 0x2, 1, 0xF0, 4), ('auto_s2_al15_w8', 2, 15, 0x2, 1, 0xFFF0, 8), ('auto_s2_al15_w16', 2, 15, 0x2, 1, 0xFFFFFFF0, 16),
-               ('auto_s48_al0_collapse', 48, 0, 0x22, 1, 0, 2), ('o16_s20_al7_skipsep', 20, 7, 0x240, 1, 0x100, 4)]
-    for nm, size, al, fl, addr, st, w in hd:
-        nl = (al + size + 15) // 16
-        qs.append(Q('hexdump_' + nm, 'X', 'h_hexdump.c', {'SIZE': size, 'ALIGN': al, 'FLAGS': fl, 'ADDR': addr, 'START': st, 'WIDTH': w, 'KF_WRAP_EXCL': 1}, max(18, size + 3), unwindset=PRINTF_LOOPS,
-                    mem_gb=12, per_harness_block=0,
-                    desc='format_data text of %d symbolic bytes at %s, flags 0x%x, all 1-3-way iovec partitions, decoded by an independent dump parser' % (size, 'symbolic 64-bit address with low nibble %d' % al if addr == 0 else 'address 0x%x' % (st + al), fl),
-                    bounds='size %d, start & 15 == %d, flags 0x%x, %s' % (size, al, fl, 'start address symbolic over all 64-bit values whose line-rounded range stays below 2^64' if addr == 0 else 'start address 0x%x' % (st + al))))
-    qs.append(Q('hexdump_KF_top_of_address_space', 'X', 'h_hexdump.c', {'SIZE': 3, 'ALIGN': 14, 'FLAGS': 0x802, 'ADDR': 0, 'START': 0, 'WIDTH': 16, 'KF_WRAP_ONLY': 1}, 18, unwindset=PRINTF_LOOPS, mem_gb=12,
-                desc='probe: dump whose last line ends at or wraps past 2^64', bounds='size 3, low nibble 14', expect_fail='format_data prints nothing or throws when the dumped range (rounded to lines) reaches 2^64'))
+        hd += [('s5_al13_skipsep_o64', 5, 0x123456789ABCDEFD, 0x842, 16, [(0, 0), (2, 4), (3, 3), (5, 5)]),
+               ('s16_al0_noascii', 16, 0x40, 0x0, 2, [(0, 16), (7, 9)]),
+               ('s17_al15_near2e32', 17, 0xFFFFFFEF, 0x2, 16, [(0, 1), (1, 17)]),
+               ('s4_al14_w4', 4, 0xFE, 0x2, 4, [(1, 3)]), ('s2_al15_w8', 2, 0xFFFF, 0x2, 8, [(1, 1)]), ('s2_w8_top32', 2, 0xFFFFFFF0, 0x2, 8, [(0, 2)]),
+               ('s20_al7_o16_skipsep', 20, 0x107, 0x240, 4, [(5, 15)]),
+               ('s48_collapse', 48, 0x0, 0x22, 2, [(10, 30)]), ('s50_al3_collapse', 50, 0x13, 0x22, 2, [(0, 50)]),
+               ('s8_below_top', 8, 0xFFFFFFFFFFFFFFE4, 0x2, 16, [(3, 3)])]
+    for nm, size, st, fl, w, cuts in hd:
+        for c1, c2 in cuts:
+            qs.append(Q('hexdump_%s_c%d_%d' % (nm, c1, c2), 'XP', 'h_hexdump.c', {'SIZE': size, 'START': '0x%xULL' % st, 'FLAGS': fl, 'WIDTH': w, 'C1': c1, 'C2': c2}, max(18, size + 3), unwindset=PRINTF_LOOPS, mem_gb=12,
+                        desc='format_data text of %d symbolic bytes at 0x%x, flags 0x%x, iovecs cut at %d/%d, decoded by an independent dump parser' % (size, st, fl, c1, c2),
+                        bounds='size %d, start 0x%x, flags 0x%x, cuts (%d,%d), all byte values' % (size, st, fl, c1, c2)))
+    # dumps whose last line ends at 2^64 (fixes/format_data-top-of-address-space.patch; VIOLATION on the unpatched tree)
+    for nm, size, st, cuts in (('top_ends_at_2e64', 16, 0xFFFFFFFFFFFFFFF0, (0, 16)), ('top_unaligned_to_2e64', 12, 0xFFFFFFFFFFFFFFF4, (5, 5)), ('top_last_line', 3, 0xFFFFFFFFFFFFFFF4, (1, 2))):
+        if quick and nm != 'top_ends_at_2e64':
+            continue
+        qs.append(Q('hexdump_' + nm, 'XP', 'h_hexdump.c', {'SIZE': size, 'START': '0x%xULL' % st, 'FLAGS': 0x2, 'WIDTH': 16, 'C1': cuts[0], 'C2': cuts[1]}, max(18, size + 3), unwindset=PRINTF_LOOPS, mem_gb=12,
+                    desc='format_data text of %d symbolic bytes whose last line ends at 2^64' % size, bounds='size %d, start 0x%x, all byte values' % (size, st)))
     return qs
